@@ -53,6 +53,7 @@ from .architecture_features import Block
 from .cascade_builder import CascadeBuilder
 from .cascade_builder import CascadeInfo
 from .data_type import DataType
+from .errors import VelaError
 from .nn_graph import CascadedPass
 from .nn_graph import Graph
 from .nn_graph import Pass
@@ -1424,7 +1425,12 @@ class Scheduler:
                 competing_tens_access,
                 self.evicted_fms,
             )
-        assert max(max_mem_usage) <= staging_limit, "Allocation exceeds staging limit"
+        if max(max_mem_usage) > staging_limit:
+            # Everything that could be moved out of fast storage has been, what is left has to stay there
+            raise VelaError(
+                f"The feature maps that have to be kept in fast storage need {max(max_mem_usage)} bytes, which exceeds"
+                f" the limit of {staging_limit} bytes (arena cache size)"
+            )
 
     def print_schedule(self, schedule: Schedule):
         print(f"Schedule: '{schedule.name}'")
